@@ -129,6 +129,31 @@ pub fn run_corrupt(c: &CorruptCase, dir: &Path, findings: &crate::findings::Find
         if c.mode == 1 || c.mode == 2 {
             ex.close().await?;
         }
+        // entries of the victim's key handed out BEFORE the alteration and loaded once: a second load of the same Entry
+        // object after the alteration must not return the altered bytes either (sessions that stay open only)
+        let victim_key = ex.model.blobs.get(&blob).and_then(|b| b.get(ridx)).map(|r| r.key).unwrap_or(0);
+        let mut held = None;
+        if c.mode == 0 || c.mode == 3 {
+            let kb = ex.key(victim_key);
+            match ex.s().hold_entries(&kb).await {
+                Ok(mut h) => {
+                    let exp = ex.model.exp_read_all(victim_key, true);
+                    let first = h.load_data_all().await;
+                    if first.len() != exp.len() {
+                        return f(&ex, "read_all_with_deletion_marker/len", format!("key {} got {} expected {}", victim_key, first.len(), exp.len()));
+                    }
+                    for (g, e) in first.iter().zip(exp.iter()) {
+                        match g {
+                            Ok(d) if *d == e.data => {}
+                            Ok(_) => return f(&ex, "entry/load_data-mismatch", format!("key {} entry at {:?}", victim_key, e.pos)),
+                            Err(err) => return f(&ex, "entry/load_data-err", format!("key {} entry at {:?}: {:#}", victim_key, e.pos, err)),
+                        }
+                    }
+                    held = Some((h, exp));
+                }
+                Err(e) => return f(&ex, "read_all_with_deletion_marker/err", format!("key {}: {:#}", victim_key, e)),
+            }
+        }
         {
             use std::os::unix::fs::FileExt;
             let path = sut::blob_path(dir, blob);
@@ -141,6 +166,19 @@ pub fn run_corrupt(c: &CorruptCase, dir: &Path, findings: &crate::findings::Find
             file.write_all_at(&buf[..width], dpos + off).map_err(|e| Failure { clause: "harness/write".into(), detail: e.to_string(), step: 0, op: String::new() })?;
         }
         labels.insert(format!("mode_{}", c.mode));
+        if let Some((mut h, exp)) = held {
+            let second = h.load_data_all().await;
+            for (g, e) in second.iter().zip(exp.iter()) {
+                ex.stats.queries += 1;
+                match (g, e.pos == target) {
+                    (Ok(_), true) => return f(&ex, "corrupt/held-entry-served", format!("key {} entry at {:?}: load_data on an Entry obtained (and loaded once) before the alteration returned Ok", victim_key, e.pos)),
+                    (Ok(d), false) if *d != e.data => return f(&ex, "corrupt/entry-mismatch", format!("key {} held entry at {:?}", victim_key, e.pos)),
+                    (Err(err), false) => return f(&ex, "corrupt/collateral-entry-err", format!("key {} held entry at {:?}: {:#}", victim_key, e.pos, err)),
+                    _ => {}
+                }
+            }
+            labels.insert("held_entry_reloaded".to_string());
+        }
         let mut dropped = false;
         if c.mode == 1 || c.mode == 2 {
             if c.mode == 2 {
